@@ -145,20 +145,20 @@ func specNatVal(b []byte, o int, n int) uint64 {
 // Round trip of the variable-length number: decoding what was encoded gives the value back
 // (a two-line lemma over the two contracts above, checked like any other function).
 //
-// @ func lemmaTLRoundTrip
-// @   requires len(buf) >= 9
-// @   modifies buf[*]
-// @   ensures result == v
+//@ func lemmaTLRoundTrip
+//@   requires len(buf) >= 9
+//@   modifies buf[*]
+//@   ensures result == v
 func lemmaTLRoundTrip(v TLNum, buf []byte) TLNum {
 	n := v.EncodeInto(buf)
 	r, _ := ParseTLNum(buf[:n])
 	return r
 }
 
-// @ func lemmaNatRoundTrip
-// @   requires len(buf) >= 8
-// @   modifies buf[*]
-// @   ensures result == v
+//@ func lemmaNatRoundTrip
+//@   requires len(buf) >= 8
+//@   modifies buf[*]
+//@   ensures result == v
 func lemmaNatRoundTrip(v Nat, buf []byte) Nat {
 	n := v.EncodeInto(buf)
 	r, _, _ := ParseNat(buf[:n])
@@ -264,7 +264,9 @@ func rdLen(r io.ByteReader) int {
 //@   modifies r.pos
 //@   ensures wfBR(r)
 //@   ensures result1 == nil ==> len(result0) == 1 && len(result0[0]) == l && r.pos == old(r.pos)+l
+//@   ensures result1 == nil ==> sameSlice(result0[0], r.buf[old(r.pos):old(r.pos)+l]) && fresh(result0)
 //@   ensures result1 != nil ==> r.pos == old(r.pos)
+//@   ensures result1 != nil ==> l < 0 || l > len(r.buf)-old(r.pos) || (l > 0 && old(r.pos) >= len(r.buf))
 
 //@ func (*BufferReader).ReadBuf
 //@   requires wfBR(r)
@@ -398,9 +400,9 @@ func specCompAt(buf []byte, o int, c Component) bool {
 
 // Round trip for one component: parsing the standalone encoding gives the component back.
 //
-// @ func lemmaComponentRoundTrip
-// @   ensures result.Typ == c.Typ && len(result.Val) == len(c.Val)
-// @   ensures forallIn(0, len(c.Val), func(i int) bool { return result.Val[i] == c.Val[i] })
+//@ func lemmaComponentRoundTrip
+//@   ensures result.Typ == c.Typ && len(result.Val) == len(c.Val)
+//@   ensures forallIn(0, len(c.Val), func(i int) bool { return result.Val[i] == c.Val[i] })
 func lemmaComponentRoundTrip(c Component) Component {
 	b := c.Bytes()
 	r, _ := ParseComponent(b)
@@ -418,10 +420,10 @@ func specNameLen(n Name, k int) int {
 // A-MEM (DESIGN.md section 6): the encodings reachable from one value total less than 2^62 bytes, so
 // prefix sums of component sizes are non-negative, monotone and do not wrap. Assumed, not proved.
 //
-// @ func lemmaNameLenMono
-// @   trusted
-// @   requires 0 <= j && j <= i && i <= len(n)
-// @   ensures 0 <= specNameLen(n, j) && specNameLen(n, j) <= specNameLen(n, i) && specNameLen(n, i) <= 281474976710656
+//@ func lemmaNameLenMono
+//@   trusted
+//@   requires 0 <= j && j <= i && i <= len(n)
+//@   ensures 0 <= specNameLen(n, j) && specNameLen(n, j) <= specNameLen(n, i) && specNameLen(n, i) <= 281474976710656
 func lemmaNameLenMono(n Name, j, i int) {}
 
 //@ func (Name).EncodingLength
@@ -515,12 +517,12 @@ func specCompFits(buf []byte, o int) bool {
 
 // Round trip through a reader: a component encoded at buf[o] (canonical form) is read back unchanged.
 //
-// @ func lemmaReadComponentRoundTrip
-// @   requires wfBR(r) && r.pos+specCompLen(c) <= len(r.buf) && specCompAt(r.buf, r.pos, c)
-// @   modifies r.pos
-// @   ensures result1 == nil && result0.Typ == c.Typ && len(result0.Val) == len(c.Val)
-// @   ensures bytesAt(result0.Val, 0, c.Val)
-// @   ensures r.pos == old(r.pos)+specCompLen(c)
+//@ func lemmaReadComponentRoundTrip
+//@   requires wfBR(r) && r.pos+specCompLen(c) <= len(r.buf) && specCompAt(r.buf, r.pos, c)
+//@   modifies r.pos
+//@   ensures result1 == nil && result0.Typ == c.Typ && len(result0.Val) == len(c.Val)
+//@   ensures bytesAt(result0.Val, 0, c.Val)
+//@   ensures r.pos == old(r.pos)+specCompLen(c)
 func lemmaReadComponentRoundTrip(r *BufferReader, c Component) (Component, error) {
 	return ReadComponent(r)
 }
@@ -618,10 +620,12 @@ func SpecNameHash(n Name) uint64 { return SpecNameHash(n) }
 
 //@ func (Name).Hash
 //@   trusted
+//@   option no-alloc
 //@   ensures result == SpecNameHash(n)
 
 //@ func (Name).Clone
 //@   trusted
+//@   option allocs-other
 //@   ensures SpecNameHash(result) == SpecNameHash(n) && len(result) == len(n) && fresh(result)
 
 //@ func (Name).PrefixHash
@@ -630,6 +634,7 @@ func SpecNameHash(n Name) uint64 { return SpecNameHash(n) }
 
 //@ func (Component).Hash
 //@   trusted
+//@   pure
 
 // exported names of the TLV-number spec functions, for contracts in other packages
 func SpecTLLen(x uint64) int           { return specTLLen(x) }
@@ -646,7 +651,7 @@ func specBytesEq9(a []byte, ao int, b []byte, bo int, n int) bool {
 
 // If two byte sequences agree on the bytes of a variable-length number, they decode to the same number.
 //
-// @ func lemmaTLContent
-// @   requires 0 <= ao && 0 <= bo && n >= 1 && (n >= specTLSize(b, bo) || n >= specTLSize(a, ao)) && specBytesEq9(a, ao, b, bo, n)
-// @   ensures specTLSize(a, ao) == specTLSize(b, bo) && specTLVal(a, ao) == specTLVal(b, bo)
+//@ func lemmaTLContent
+//@   requires 0 <= ao && 0 <= bo && n >= 1 && (n >= specTLSize(b, bo) || n >= specTLSize(a, ao)) && specBytesEq9(a, ao, b, bo, n)
+//@   ensures specTLSize(a, ao) == specTLSize(b, bo) && specTLVal(a, ao) == specTLVal(b, bo)
 func lemmaTLContent(a []byte, ao int, b []byte, bo int, n int) {}
